@@ -1,4 +1,5 @@
 import Apko.Model.Tar
+import Apko.Model.TarCancel
 import Apko.Driver.FS
 /-! line-protocol handlers for corr:tar (C06)
 
@@ -181,8 +182,58 @@ def readbackVerdict (goEntries rb : String) : String :=
     | none => "pass"
     | some e => "fail:" ++ rbErrS e
 
+/-! `tar.cancel <backend> <single|writetar|multi> <live|never> <canceled|deadline> <go-outcome> <op> …` — the layer writer
+under a context whose `ctx.Err()` returned nil `live` times before it reported the error.  Go's outcome: `ERR:<kind>`,
+`E:<entries>` (single layer, `writeTar`) or `P:<paths>` (the union of the layers `splitLayers` wrote).  `impl` =
+`Model/TarCancel.lean: layerCtx` with the plan read off the regenerated statements; `spec` = the call failed, or the
+layer(s) hold exactly the paths of the file system and (entry lists) pass the oracle of `tar.layer`. -/
+
+def ctxErrS : CtxErr → String
+  | .canceled => "canceled" | .deadline => "deadline"
+
+def parseCtx (live kind : String) : Option Ctx :=
+  if live = "never" then none
+  else some { live := parseNat live, err := if kind = "deadline" then .deadline else .canceled }
+
+def pathsS (ps : List (List Name)) : String := String.ofList (sepJoin (T ";") (ps.map fun p => hex (joinNames p)))
+
+def cancelReply (bk : Backend) (path live kind go : String) (toks : List String) : String :=
+  let fs := runOps (Cfg.impl bk) toks FS.empty
+  let es := writeTar bk fs
+  let multi := path = "multi"
+  let plan := if multi then multiPlan else if path = "writetar" then writeTarPlan else singlePlan
+  let impl :=
+    match layerCtx plan (parseCtx live kind) es with
+    | .error e => "ERR:" ++ ctxErrS e
+    | .ok l =>
+      if es.any (·.kind = .other) then "ERR:other"
+      else if multi then "P:" ++ pathsS (l.map (·.path))
+      else "E:" ++ String.ofList (entriesS l)
+  let want := (walk fs).map (·.1)
+  let incomplete (got : List (List Name)) : String :=
+    "fail:incomplete:no-error-and-" ++ toString got.length ++ "-of-" ++ toString want.length ++ "-paths"
+  let (spec, cls) :=
+    if go.startsWith "ERR:" then ("pass", "-")
+    else if go.startsWith "P:" then
+      let got := if go.length = 2 then [] else ((go.drop 2).toString.splitOn ";").map fun h => parts (ux h)
+      if got = want then ("pass", "-") else (incomplete got, "unlisted")
+    else if go.startsWith "E:" then
+      match parseEntries (go.drop 2).toString with
+      | none => ("fail:unreadable", "unlisted")
+      | some ges =>
+        if ges.map (·.path) ≠ want then (incomplete (ges.map (·.path)), "unlisted")
+        else
+          let v := verdict ges (keyTree (observeTree bk fs)) (usersOf bk fs) (groupsOf bk fs)
+          (v, if v = "pass" then "-" else classOf bk fs)
+    else ("fail:unreadable", "unlisted")
+  impl ++ "\t" ++ spec ++ "\t" ++ cls
+
 def handle (args : List String) : Option String :=
   match args with
+  | "tar.cancel" :: b :: path :: live :: kind :: go :: toks =>
+    match backendOf b with
+    | none => some "bad-backend\tbad-backend\t-"
+    | some bk => some (cancelReply bk path live kind go toks)
   | "tar.layer" :: b :: goEntries :: toks =>
     match backendOf b with
     | none => some "bad-backend\tbad-backend\t-"
